@@ -148,11 +148,12 @@ def conn_of(ctx, tr, I, node):
 
 
 @unit(name='transport.incoming', relpath=TRMOD, qual=['%s._onIncomingMessageReceived' % CLS], props=['C14', 'C10', 'C18'],
-      cases=[dict(kind=k) for k in ('address', 'readonly', 'garbage')],
+      cases=[dict(kind=k) for k in ('address', 'readonly', 'garbage', 'garbage-list', 'empty-list', 'garbage-dict', 'nested-list')],
       doc='O14.1: the first message on an incoming connection names the peer: a known member address binds the connection to exactly that '
           'node (later messages are delivered with that node as source) and reports it connected once; "readonly" creates a fresh '
           'non-member node; anything else disconnects the connection and leaves it in no table',
-      assumptions=['no-crypto', 'utility messages (lists) handled by _onUtilityMessage are outside this unit'],
+      assumptions=['no-crypto', 'a list whose head is a registered utility command is handled by _onUtilityMessage (outside this unit); every other first '
+                   'message - any picklable value a stranger may send - is in scope'],
       canaries=[('no-disconnect-for-unknown', lambda mod: mutate_function(mod, '%s._onIncomingMessageReceived' % CLS, _mut_no_disconnect), ['O14.1.unknown-peer-disconnected'])])
 def tr_incoming(ctx, kind):
     tr, conns, members = mk_transport(ctx)
@@ -178,6 +179,14 @@ def tr_incoming(ctx, kind):
         msg = NodeId(idx)
     elif kind == 'readonly':
         msg = 'readonly'
+    elif kind == 'garbage-list':
+        msg = ctx.alloc(PList(['no-such-command', 1]))
+    elif kind == 'empty-list':
+        msg = ctx.alloc(PList([]))
+    elif kind == 'garbage-dict':
+        msg = ctx.alloc(PDict({'type': 'append_entries'}))
+    elif kind == 'nested-list':
+        msg = ctx.alloc(PList([ctx.alloc(PList(['x']))]))
     else:
         msg = 'no-such-thing'
     outcome, r, I = run_tr(ctx, tr, '_onIncomingMessageReceived', [newc, msg])
